@@ -243,7 +243,7 @@ func (c *Handler) validateTokenClaims(ctx context.Context, claims jwt.Claims, ke
 		)
 	}
 
-	if claims.Expiry.Time().Before(time.Now()) {
+	if !claims.Expiry.Time().After(time.Now()) {
 		return errorsx.WithStack(fosite.ErrInvalidGrant.
 			WithHint("The JWT in \"assertion\" request parameter expired."),
 		)
